@@ -1,6 +1,7 @@
 (* C09 -- property theorems (SubsectionIO part). *)
 From Pyctr Require Import Base.Prelude Base.ListExt Base.PySlice Env.PyFile Model.Window Model.Merger Proofs.WindowProofs Proofs.MergerProofs.
-From Dyn Require Import Gen_fileio C09_bridge.
+From Pyctr Require Import Base.PyInt Env.FileIface Model.PosReader Proofs.PosReaderProofs Model.Blocks Model.Dpfs Proofs.DpfsProofs Model.Ivfc Model.IvfcRead Proofs.IvfcReadProofs.
+From Dyn Require Import Gen_fileio C09_bridge Gen_common Gen_dpfs Gen_ivfcpd.
 
 (* every step of every history of seek/read/write/tell calls, with any integer arguments,
    on a window [off, off+sz) over a base file that reaches the window's start, obeys the
@@ -34,3 +35,35 @@ Theorem C09_gen_write_prefix : forall sz sk d,
   SubsectionIO_write_prefix sk sz d = if sk >? sz then None else Some (win_write_data sz sk d).
 Proof. exact gen_write_prefix_spec. Qed.
 Print Assumptions C09_gen_write_prefix.
+
+(* ---- handles that keep a position of their own (reader-owned files, the DPFS level-3 file, the verified level-4 view) ---- *)
+
+(* their seek methods, regenerated from the three source files, are one and the same function: the model's *)
+Theorem C09_seek_is_source : forall pos size off wh,
+  let want := match pr_seek_pos size pos off wh with Ok p => Ok (p, p) | Err e => Err e end in
+  ReaderOpenFileBase_seek pos size off wh = want /\ DPFSLevel3FileIO_seek pos size off wh = want /\ IVFCLevel4Reader_seek pos size off wh = want.
+Proof.
+  intros pos size off wh. cbv zeta. unfold ReaderOpenFileBase_seek, DPFSLevel3FileIO_seek, IVFCLevel4Reader_seek, pr_seek_pos.
+  destruct (wh =? 0); [destruct (off <? 0); auto|]. destruct (wh =? 1); [auto|]. destruct (wh =? 2); auto.
+Qed.
+Print Assumptions C09_seek_is_source.
+
+(* every such handle obeys the file contract over the view it shows, at every step of every history: reads return the slice of
+   the view at the position (clamped to its end) and advance by what they return, seeks set the position they report, nothing
+   changes the view *)
+Theorem C09_reader_file : forall data,
+  lawful (pr_ops (len data) (rof_fetch data)) (fun s => 0 <= pr_pos s) (fun _ => data) pr_pos.
+Proof. exact reader_file_lawful. Qed.
+Print Assumptions C09_reader_file.
+
+Theorem C09_dpfs_file : forall pair size bs lv2, 0 < bs -> 0 < size -> len pair = 2 * size ->
+  let view := active_view pair size bs (active_bit lv2) in
+  lawful (pr_ops (len view) (lv3_file_read pair size bs lv2)) (fun s => 0 <= pr_pos s) (fun _ => view) pr_pos.
+Proof. exact dpfs_file_lawful. Qed.
+Print Assumptions C09_dpfs_file.
+
+Theorem C09_ivfc_file : forall H tree master verify, 0 < lv4_bs tree -> 0 < lv4_size tree ->
+  let view := lv4_view H tree master verify in
+  lawful (pr_ops (len view) (lv4_read H tree master verify)) (fun s => 0 <= pr_pos s) (fun _ => view) pr_pos.
+Proof. exact ivfc_file_lawful. Qed.
+Print Assumptions C09_ivfc_file.
